@@ -1,7 +1,7 @@
 """C05: compiling a DBC yields the database it denotes, in canonical order
 (internal/generate/compile.go, pkg/dbc/messageid.go, pkg/descriptor). DESIGN.md 5.5, class 4.2."""
 import vlib
-from checks import translate_tie
+from checks import translate_tie, compile_tie
 
 _NOTE = ("Trusted: Coq 8.16.1 kernel; extraction (ExtrOcamlBasic) + OCaml 4.13.1; the hand-written model Dbc/Compile.v "
          "(collectDescriptors, addMetadata with warnings, sortDescriptors; uint8()/int64(float)/Duration conversions written "
@@ -64,6 +64,8 @@ RULE = ("seeded generator of DESIGN 4.2 files (1..20 nodes, 0..22 messages stand
 translate_tie.describe(PROPERTIES, "C05", "(here: MessageID.IsExtended/ToCAN/Validate of pkg/dbc/messageid.go = msgid_is_extended/msgid_to_can/"
                        "msgid_valid of Dbc/Ast.v, which compile's model uses for every message and metadata line)",
                        translate_tie.TIE_NOTE_INT)
+PROPERTIES["C05"]["text"] += compile_tie.TIE_TEXT
+PROPERTIES["C05"]["note"] += " Added trusted base: " + compile_tie.TRUSTED + "."
 
 
 def sizes(tier):
@@ -82,6 +84,7 @@ def run(res, replay=None):
         res.tier = rp.get("tier", res.tier)
     vlib.proof_stage(res)
     translate_tie.run_tie(res, ["dbcid"])
+    compile_tie.run_compile_tie(res)  # stage compile_tie
     n_class, n_wild = sizes(res.tier)
     vlib.standard_run(
         res, "compile", [res.seed, n_class, n_wild], "compile", RULE,
